@@ -16,6 +16,9 @@ is compared, and only differences that change what the matched expression comput
   D9  a call statement made for its effect (not a container method, not logging) is gone and nothing in the function calls that
       callee any more (and the callee still exists)                                       node_impl.clear(node)  ->  (nothing)
   D10 an operand compared with None / False on the reference tree is now only tested by truthiness   if step is not None -> if step
+  D11 the same conditions joined by the other connective (and <-> or)
+  D12 `t = A if c else B` became unconditionally `t = A` and `c` is tested nowhere in the function any more
+  D5b a subscript made only of literals changed                                              x[..., None] -> x[:, None]
   D7  one positional argument that is a parameter of the enclosing function is no longer passed, the other
       arguments unchanged and in order                                                    merge(state, *states) -> merge(*states)
 
@@ -149,6 +152,26 @@ def atoms(fn):
         te = te.operand
       if isinstance(te, (ast.Name, ast.Attribute)) and astu.dotted(te):
         truthy.add(astu.dotted(te))
+  # boolean connectives keyed by their operands; conditional expressions keyed by their target; literal slices keyed by their base
+  bools, ifexps, lslices = {}, {}, {}
+  for n in _own_nodes(fn):
+    if isinstance(n, ast.BoolOp) and not _in_message(n):
+      ops = sorted(astu.src(v) for v in n.values)
+      if sum(len(o) for o in ops) <= 240:
+        bools.setdefault(' ## '.join(ops), []).append([type(n.op).__name__, getattr(n, 'lineno', 0)])
+    if isinstance(n, (ast.Assign, ast.Return)) and isinstance(n.value, ast.IfExp):
+      tgt = astu.src(n.targets[0]) if isinstance(n, ast.Assign) and len(n.targets) == 1 else ('return' if isinstance(n, ast.Return) else None)
+      if tgt is not None:
+        ifexps.setdefault(tgt, []).append([astu.src(n.value.test), astu.src(n.value.body), astu.src(n.value.orelse), getattr(n, 'lineno', 0)])
+    if isinstance(n, ast.Subscript) and isinstance(n.ctx, ast.Load) and not _in_message(n) and not any(isinstance(y, (ast.Name, ast.Attribute, ast.Call)) for y in ast.walk(n.slice)) and len(astu.src(n.value)) <= 100:
+      lslices.setdefault(astu.src(n.value), []).append([astu.src(n.slice), getattr(n, 'lineno', 0)])
+  plain = {}
+  for n in _own_nodes(fn):
+    if isinstance(n, ast.Assign) and len(n.targets) == 1 and not isinstance(n.value, ast.IfExp):
+      plain.setdefault(astu.src(n.targets[0]), []).append(astu.src(n.value))
+    elif isinstance(n, ast.Return) and n.value is not None and not isinstance(n.value, ast.IfExp):
+      plain.setdefault('return', []).append(astu.src(n.value))
+  tests = sorted({astu.src(n.test) for n in _own_nodes(fn) if isinstance(n, (ast.If, ast.IfExp, ast.While))})
   # `X is None` / `X is not None` / `X is False` ... per operand X
   nonecmp = {}
   for n in _own_nodes(fn):
@@ -156,7 +179,8 @@ def atoms(fn):
         and not isinstance(n.comparators[0].value, int if n.comparators[0].value is None else str) and astu.dotted(n.left):
       nonecmp.setdefault(astu.dotted(n.left), []).append(repr(n.comparators[0].value))
   return {'call': uniq(calls), 'cmp': uniq(cmps), 'idx': uniq(idxs), 'bin': uniq(bins), 'params': sorted(params),
-          'fx': {k: v[0] for k, v in effects.items() if len(v) == 1}, 'callees': sorted(all_callees), 'truthy': sorted(truthy), 'nonecmp': {k: sorted(set(v)) for k, v in nonecmp.items()}}
+          'fx': {k: v[0] for k, v in effects.items() if len(v) == 1}, 'callees': sorted(all_callees), 'truthy': sorted(truthy), 'nonecmp': {k: sorted(set(v)) for k, v in nonecmp.items()},
+          'bool': uniq(bools), 'ifexp': uniq(ifexps), 'lslice': uniq(lslices), 'plain': {k: v for k, v in plain.items() if len(v) == 1}, 'tests': tests}
 
 
 def call_counts(tree):
@@ -179,7 +203,7 @@ def table(repo, rels):
     out['#calls|' + rel] = call_counts(m._tree)
     for q, f in m._funcs.items():
       a = atoms(f.node)
-      if a['call'] or a['cmp'] or a['idx'] or a['bin'] or a['fx'] or a['nonecmp']:
+      if a['call'] or a['cmp'] or a['idx'] or a['bin'] or a['fx'] or a['nonecmp'] or a['bool'] or a['ifexp'] or a['lslice']:
         out['%s|%s' % (rel, q)] = a
   return out
 
@@ -265,6 +289,34 @@ def compare(R, f, ref, now, module_funcs=None, counts=None, repo=None):
       continue
     n_cmp += 1
     R.fail(key_of(f, '`%s` compared with %s' % (x, '/'.join(consts))), f, '`%s` is compared with %s on the reference tree; now it is only tested by truthiness, which also treats 0, 0.0, empty containers and empty filters as "absent" / "off"' % (x, ' / '.join(consts)))
+  # D11: the same operands joined by the other connective (a refactoring that swaps and/or also negates the operands)
+  for key, (rop, _l) in (ref.get('bool') or {}).items():
+    cur = (now.get('bool') or {}).get(key)
+    if cur is None:
+      continue
+    n_cmp += 1
+    if cur[0] != rop:
+      R.fail(key_of(f, 'connective of `%s`' % key.replace(' ## ', '` `')[:100]), (f, cur[1]), 'the conditions `%s` are joined by `%s`; on the reference tree by `%s`' % (key.replace(' ## ', '`, `'), 'or' if cur[0] == 'Or' else 'and', 'or' if rop == 'Or' else 'and'))
+  # D12: `t = A if c else B` became `t = A` (or `t = B`) and the test `c` is gone from the function
+  for tgt, (test, body, orelse, _l) in (ref.get('ifexp') or {}).items():
+    if tgt in (now.get('ifexp') or {}):
+      continue
+    val = (now.get('plain') or {}).get(tgt)
+    if not val or val[0] not in (body, orelse):
+      continue
+    if test in now.get('tests', ()) or ('not ' + test) in now.get('tests', ()) or any(test in t_ for t_ in now.get('tests', ())):
+      continue
+    n_cmp += 1
+    R.fail(key_of(f, '`%s` keeps both alternatives' % tgt), f, '`%s` is `%s if %s else %s` on the reference tree; now it is unconditionally `%s` and `%s` is tested nowhere in %s: the %s case lost its special handling' % (
+        tgt, body, test, orelse, val[0], test, q, 'false' if val[0] == body else 'true'))
+  # D5b: a subscript made only of literals (..., :, None, numbers) changed
+  for base, (rs, _l) in (ref.get('lslice') or {}).items():
+    cur = (now.get('lslice') or {}).get(base)
+    if cur is None or base in ref['idx'] and base in now['idx']:
+      continue
+    n_cmp += 1
+    if cur[0] != rs:
+      R.fail(key_of(f, 'index of %s' % base), (f, cur[1]), '`%s[%s]` is `%s[%s]` on the reference tree: another part of the array / sequence is selected' % (base, cur[0], base, rs))
   for base, (rv, _l) in ref['idx'].items():
     cur = now['idx'].get(base)
     if cur is None:
